@@ -84,7 +84,7 @@ pub fn corpus(idx: usize, seed: u64, w: &mut dyn Write, thorough: bool) -> Optio
             g.step(&x("david", vec![], MMsg::BL { listing_id: 8, bucket_id: 7 }));
             g.step(&x("carol", vec![], MMsg::RB { id: 7 }));
             // NFT / cw20 / native top-up of a proceeds bucket that carries a fee, then withdrawal
-            g.step(&x("david", natives(&[(3, "uosmo")]), MMsg::CL { id: 9, create: create(&[(1000, JUNO_DENOM), (1000, USDC_DENOM)]) }));
+            g.step(&x("david", natives(&[(3, "uosmo"), (2000, JUNO_DENOM), (3000, USDC_DENOM)]), MMsg::CL { id: 9, create: create(&[(1000, JUNO_DENOM), (1000, USDC_DENOM)]) }));
             g.step(&x("david", vec![], MMsg::FI { id: 9, seconds: 600 }));
             g.step(&x("bobby", natives(&[(1000, JUNO_DENOM), (1000, USDC_DENOM)]), MMsg::CB { id: 9 }));
             g.step(&x("bobby", vec![], MMsg::BL { listing_id: 9, bucket_id: 9 }));
@@ -96,6 +96,13 @@ pub fn corpus(idx: usize, seed: u64, w: &mut dyn Write, thorough: bool) -> Optio
             g.step(&x("david", natives(&[(5, JUNO_DENOM), (6, "uatom")]), MMsg::AB { id: 9 }));
             g.battery_faults();
             g.step(&x("david", vec![], MMsg::RB { id: 9 }));
+            // a purchased, fee-bearing listing whose original expiration has passed: its buyer must still
+            // take it with WithdrawPurchased (fee to the pool), never with DeleteListing
+            g.battery_owner_exits();
+            g.step(&Op::ADV { d_ns: 700_000_000_000, d_height: 100 });
+            g.step(&x("bobby", vec![], MMsg::DL { id: 9 }));
+            g.step(&x("david", vec![], MMsg::DL { id: 9 }));
+            g.battery_owner_exits();
             g.step(&x("bobby", vec![], MMsg::WP { id: 9 }));
             g.battery_drain();
             Some(g.stats)
